@@ -35,9 +35,9 @@ def run(c):
     r = c.validate("TrustRenewTrace", "TrustRenewTrace.cfg", trace, timeout=1800)
     _pki.judge_table(c, r, trace)
     if not c.replay:
-        _pki.need(r, "accepted", "accepted renewal request")
-        _pki.need(r, "accepted_via_grace", "renewal request accepted through the grace period")
-        _pki.need(r, "issued", "issued chain")
+        _pki.need(c, r, "accepted", "accepted renewal request")
+        _pki.need(c, r, "accepted_via_grace", "renewal request accepted through the grace period")
+        _pki.need(c, r, "issued", "issued chain")
     _pki.drift(c, r)
     n, distinct = vlib.count_distinct(
         trace, lambda e: None if e.get("ev") not in ("renew", "issue") or not e["ok"] else
